@@ -257,6 +257,11 @@ def all_index_cases(ic: IndexChecker, rng):
 				ic.expect_item(v, L[i], f'int:{cls}')
 			else:
 				ic.expect_raise(v, f'int-oob:{cls}')
+	# bool is an int for a plain list (L[True] is L[1]): the same here
+	if n >= 2:
+		ic.expect_item(True, L[1], 'int:bool')
+	if n >= 1:
+		ic.expect_item(False, L[0], 'int:bool')
 	# ---- slices ---------------------------------------------------------------------------------
 	rngv = [None] + list(range(-n - 2, n + 3))
 	steps = [None, 1, -1, 2, -2, 3, -3, n + 1, -(n + 1)]
